@@ -232,3 +232,7 @@ M("c20-header-in-two-writes", "C20", H, "        out_file.write(new_hdr_binary)\
 M("c20-swallow-write-error", "C20", B, "            kernels.mask_channels(data, mask, mask_value, self.header.nchans, nsamps_r)\n            out_file.cwrite(data)", "            kernels.mask_channels(data, mask, mask_value, self.header.nchans, nsamps_r)\n            try:\n                out_file.cwrite(data)\n            except Exception:  # noqa: BLE001\n                continue", "a failed block write is skipped silently: hole in the output")
 M("c20-nsamples-ceil", "C20", S, '            8 * int(header["datalen"]) // int(header["nbits"]) // int(header["nchans"])', '            -(-8 * int(header["datalen"]) // (int(header["nbits"]) * int(header["nchans"])))', "sample count of a truncated file rounded up: the incomplete last sample is reported")
 M("c20-tim-header-patched", "C20", T, "        with self.header.prep_outfile(filename, nbits=32) as outfile:\n            outfile.cwrite(self.data)\n        return filename", "        with self.header.prep_outfile(filename, nbits=32) as outfile:\n            outfile.cwrite(self.data)\n            outfile.file_obj.seek(0)\n            outfile.write((12).to_bytes(4, 'little'))\n        return filename", "to_tim seeks back and rewrites the first header word after the data")
+
+# ---- C06 (state leaking between calls on one reader)
+M("c06-stats-cached", "C06", B, "        nsamps_sel = (self.header.nsamples - start) if nsamps is None else nsamps\n        bag = ChannelStats(self.header.nchans, nsamps_sel)\n        for _, ii, data in self.read_plan(\n            gulp=gulp,\n            start=start,\n            nsamps=nsamps,\n            **plan_kwargs,\n        ):\n            bag.push_data(data, ii, mode=\"full\")",
+  "        nsamps_sel = (self.header.nsamples - start) if nsamps is None else nsamps\n        if self._chan_stats is not None and self._chan_stats.nsamps == nsamps_sel:\n            return\n        bag = ChannelStats(self.header.nchans, nsamps_sel)\n        for _, ii, data in self.read_plan(\n            gulp=gulp,\n            start=start,\n            nsamps=nsamps,\n            **plan_kwargs,\n        ):\n            bag.push_data(data, ii, mode=\"full\")", "statistics cached by sample count: a second call on another range of the same length returns stale values")
